@@ -110,7 +110,7 @@ class RefDecoder:
             outs = []
             for r in violated:
                 already = self.pos - r.start
-                k = r.max - already
+                k = max(0, r.max - already)  # nothing can be un-read when the region is already overrun
                 exc = {
                     "kind": "exceeded",
                     "constraint_path": r.path,
